@@ -91,6 +91,11 @@ func reachableAvoiding(from, to, avoid *ssa.BasicBlock) bool {
 }
 
 func runC35(c *Ctx) {
+	// "verified" in this property means SignedTRC.Verify: its dispatch, the update
+	// verification and the all-required-certificates-signed check (C32 G1-G3) are
+	// what stops the store at an unverifiable TRC.
+	c.Borrow(runC32, map[string]string{"G1-verify-dispatch": "V1-what-verified-means", "G2-verify-update": "V1-what-verified-means",
+		"G3-verify-all": "V1-what-verified-means"})
 	v := c.View("(private/trust.FetchingProvider).NotifyTRC")
 	if v != nil {
 		e := NewE1(c, v.Fn)
